@@ -78,7 +78,9 @@ Definition P_ROOT_FACTORY := 7. Definition P_TRAVERSER := 8. Definition P_CTX_FO
 Definition P_VIEW_PRED := 10. Definition P_PERMITS := 11. Definition P_VIEW := 12.
 Definition P_RENDERER := 13. Definition P_UNDER_OUT := 14. Definition P_OVER_OUT := 15.
 Definition P_RESP_CB := 16.  Definition P_NEWRESP := 17.  Definition P_FIN_CB := 18.
-Definition P_EXCVIEW := 19.
+Definition P_EXCVIEW := 19.   (* exception view registered for context=Exception *)
+Definition P_EXCVIEW_HTTP := 20.   (* exception view registered for context=HTTPException *)
+Definition P_DEFAULT_VIEW := 21.   (* httpexceptions.default_exceptionresponse_view (not instrumented: no event) *)
 (* fault kinds / exception kinds *)
 Definition K_PLAIN := 1. Definition K_HTTP := 2. Definition K_PM := 3. Definition K_FALSE := 4.
 Definition K_FORBIDDEN := 4. Definition K_NOTFOUND := 5.
@@ -181,21 +183,36 @@ Definition handle_request (l : N) (sc : scn) (subrun : option M) : M :=
    (seq (hit0 l sc P_TRAVERSER)
    (seq (hit0 l sc P_CTX_FOUND) (derived_view l sc subrun)))))).
 
-(* request.invoke_exception_view as used by the excview tween's _error_handler:
-   [ev]: an exception view for Exception is registered.  HTTPNotFound (also a
-   PredicateMismatch escaping the exception view, which _call_view turns into "no view")
-   makes _error_handler re-raise the original exception. *)
-Definition error_handler (ev : bool) (l : N) (sc : scn) (k : N) : M :=
-  if ev then
-    catch (frame l (seq (hit0 l sc P_EXCVIEW) (ret P_EXCVIEW)))
-          (fun k2 => if N.eqb k2 K_PM || N.eqb k2 K_NOTFOUND then raise k else raise k2)
-  else raise k.
+(* request.invoke_exception_view as used by the excview tween's _error_handler.
+   [ev]: which exception views exist -- bit 0: a view for context=Exception, bit 1: a view for
+   context=HTTPException, bit 2: the default exceptionresponse view (context=IExceptionResponse).
+   _find_views returns them in the resolution order of the exception's interfaces: for an HTTP exception
+   (every kind but the plain one) HTTPException, IExceptionResponse, Exception; for a plain exception only
+   the Exception view applies.  _call_view calls them in that order; a PredicateMismatch escaping a view makes
+   it try the next one; when none is left (or none exists) the outcome is an HTTPNotFound, for which
+   _error_handler re-raises the original exception. *)
+Definition is_http_kind (k : N) : bool := negb (N.eqb k K_PLAIN).
+Definition exc_views (ev k : N) : list N :=
+  (if is_http_kind k && N.testbit ev 1 then [P_EXCVIEW_HTTP] else []) ++
+  (if is_http_kind k && N.testbit ev 2 then [P_DEFAULT_VIEW] else []) ++
+  (if N.testbit ev 0 then [P_EXCVIEW] else []).
+Fixpoint call_views (l : N) (sc : scn) (vs : list N) : M :=
+  match vs with
+  | [] => raise K_NOTFOUND
+  | p :: rest =>
+      if N.eqb p P_DEFAULT_VIEW then ret p
+      else catch (seq (hit0 l sc p) (ret p))
+                 (fun k2 => if N.eqb k2 K_PM then call_views l sc rest else raise k2)
+  end.
+Definition error_handler (ev : N) (l : N) (sc : scn) (k : N) : M :=
+  catch (frame l (call_views l sc (exc_views ev k)))
+        (fun k2 => if N.eqb k2 K_PM || N.eqb k2 K_NOTFOUND then raise k else raise k2).
 
 Definition tween (l : N) (sc : scn) (pin pout : N) (handler : M) : M :=
   seq (hit0 l sc pin) (bind handler (fun r => seq (hit0 l sc pout) (ret r))).
-Definition excview_tween (ev : bool) (l : N) (sc : scn) (handler : M) : M :=
+Definition excview_tween (ev : N) (l : N) (sc : scn) (handler : M) : M :=
   catch handler (error_handler ev l sc).
-Definition tween_chain (ev : bool) (l : N) (sc : scn) (subrun : option M) : M :=
+Definition tween_chain (ev : N) (l : N) (sc : scn) (subrun : option M) : M :=
   tween l sc P_OVER_IN P_OVER_OUT
     (excview_tween ev l sc (tween l sc P_UNDER_IN P_UNDER_OUT (handle_request l sc subrun))).
 
@@ -236,14 +253,14 @@ Definition resp_loop (l : N) (sc : scn) : M := fun st => resp_cbs (S (length (rq
 Definition fin_loop (l : N) (sc : scn) : M := fun st => fin_cbs (S (length (fq st))) l sc st.
 
 (* Router.invoke_request: the try body ... *)
-Definition invoke_chain (ev : bool) (l : N) (sc : scn) (tw : bool) (subrun : option M) : M :=
+Definition invoke_chain (ev : N) (l : N) (sc : scn) (tw : bool) (subrun : option M) : M :=
   if tw then tween_chain ev l sc subrun else handle_request l sc subrun.
-Definition invoke_body (ev : bool) (l : N) (sc : scn) (tw : bool) (subrun : option M) : M :=
+Definition invoke_body (ev : N) (l : N) (sc : scn) (tw : bool) (subrun : option M) : M :=
   bind (invoke_chain ev l sc tw subrun) (fun r =>
   seq (resp_loop l sc)
   (seq (hit0 l sc P_NEWRESP) (ret r))).
 (* ... and finish_request in the finally clause *)
-Definition invoke_request (ev : bool) (l : N) (sc : scn) (tw : bool) (subrun : option M) : M :=
+Definition invoke_request (ev : N) (l : N) (sc : scn) (tw : bool) (subrun : option M) : M :=
   finally (invoke_body ev l sc tw subrun) (fin_loop l sc).
 
 (* the callback deques belong to the request object: fresh for a subrequest, the parent's afterwards *)
@@ -253,7 +270,7 @@ Definition with_fresh_request (m : M) : M :=
             end.
 
 (* Router.invoke_subrequest / default_execution_policy: with RequestContext(request): invoke_request *)
-Fixpoint run_request (ev : bool) (l : N) (sc : scn) (tw : bool) : M :=
+Fixpoint run_request (ev : N) (l : N) (sc : scn) (tw : bool) : M :=
   with_fresh_request
     (frame l (invoke_request ev l sc tw
        (match s_sub sc with
@@ -262,7 +279,7 @@ Fixpoint run_request (ev : bool) (l : N) (sc : scn) (tw : bool) : M :=
         end))).
 
 Definition init_state (s0 : list N) : state := mkSt s0 [] [] [] 0 0.
-Definition run_top (ev : bool) (sc : scn) (s0 : list N) : state * res :=
+Definition run_top (ev : N) (sc : scn) (s0 : list N) : state * res :=
   run_request ev 0 sc true (init_state s0).
 
 (* ---- declarative judge of an observation (outcome is not constrained by the property) *)
@@ -295,7 +312,7 @@ Definition judge_own (l : N) (sc : scn) (tw : bool) (L : list pev) : bool :=
   (* response callbacks registered in time: before NewResponse is sent / the request is finished *)
   let rregs := registered 0 (s_regs sc) (before_first (fun e => is_pt P_NEWRESP e || is_pt P_FIN_CB e) L) in
   (* the view (and the exception view) run with this request current *)
-  forallb (fun e => negb (is_pt P_VIEW e || is_pt P_EXCVIEW e) || e_cur e) L
+  forallb (fun e => negb (is_pt P_VIEW e || is_pt P_EXCVIEW e || is_pt P_EXCVIEW_HTTP e) || e_cur e) L
   (* finished callbacks: each registered one exactly once, in order, after everything else *)
   && (has_fault sc P_FIN_CB ||
       (list_eqb fins (registered 1 (s_regs sc) L) && from_first (is_pt P_FIN_CB) (is_pt P_FIN_CB) L))
@@ -404,7 +421,7 @@ Definition run_C13 (v : val) : val :=
   ret_or_bad (
     match v with
     | VL [ev; sc; ob] =>
-        olet ev := get_bool ev in olet sc := get_scn 16 sc in
+        olet ev := get_N ev in olet sc := get_scn 16 sc in
         let '(st, r) := run_top ev sc [] in
         let d := N.of_nat (length (stk st)) in
         olet jo := match ob with
@@ -413,6 +430,7 @@ Definition run_C13 (v : val) : val :=
                                     Some (VL [vbool (judge sc od ol)])
                    | _ => None end in
         Some (VL [put_res r; vN d; vlist put_ev (log st); vbool (judge sc d (log st)); jo])
+    | VL [VI n] => Some (VL [VI 0; VI 0; VI n])      (* soak: no mismatch, no stray frame, n threads done *)
     | VL [idx; ob] =>
         olet idx := get_nat idx in
         olet pc := nth_error scope_table idx in
